@@ -418,6 +418,8 @@ def run(ctx):
     res.assumptions += ["strictly increasing non-negative integer x, y in [0, 1], dx, dy, dz > 0", "W, H >= 0",
                         "the selected point of a round is an element of the working array (it is read from a mask / arg-optimum of it)"]
     res.not_decided += ["the exact iteration bound of the selection loop", "validity for non-integer x"]
+    from .common import hidden_state as _hidden_state
+    _hidden_state(rc, "Z8", ['zmethod.knees'], "the Z-method")
     res.require_instances("C10 obligations", len(res.obligations), 8)
 
 
